@@ -19,12 +19,12 @@ def small_lists(c):
     rnd = random.Random(c.seed)
     out = []
     for _ in range(c.pick(400, 5000)):
-        n = rnd.choice([2, 2, 3, 3, 4, 5, 6])
+        n = rnd.choice([2, 2, 3, 3, 4, 5, 6, 8, 9, 10, 12, 17])     # long tables too (a lookup may be organised differently for them)
         kind = rnd.random()
         xs = sorted(rnd.sample(range(0, 2001), n))
         if rnd.random() < 0.3:                                    # tightly packed dots: pieces of width 1 and 2
             b = rnd.randrange(0, 1990)
-            xs = sorted(rnd.sample(range(b, b + 10), n))
+            xs = sorted(rnd.sample(range(b, b + max(10, n + 3)), n))
         ys = [rnd.choice([rnd.randrange(0, 2001), rnd.randrange(0, 8), 2000, 0, 1999]) for _ in range(n)]
         if kind < 0.04:
             xs[rnd.randrange(1, n)] = xs[0]                       # repeated / decreasing X
@@ -142,6 +142,13 @@ def run(c):
     c.log("PieceSeq: %d states, %d ordered lookup pairs replayed on one instance each (%d going back to an earlier piece), %d walks" % (
         sres.distinct, srep["applied"], back, srep["walks"]))
     c.guard("lookups_back_to_an_earlier_piece", back)
+    long_tables = 0
+    with open(out) as f:
+        for l in f:
+            v = json.loads(l)
+            if v["valid"] and len(v["dots"]) >= 9 and v["dots"][-1][0] in v["xs"]:
+                long_tables += 1
+    c.guard("tables_of_9_or_more_dots_queried_at_the_last_dot", long_tables)
     for g in ("valid_lists", "invalid_lists", "x_before-first", "x_after-last", "x_at-dot", "x_between"):
         c.guard(g, cnt.get(g, 0))
     c.guard("values_where_rounding_shows", rounded)
